@@ -37,6 +37,22 @@ type Ext struct {
 	// call c.KexWrite to insert packets in front of payload; packets written
 	// from inside the hook do not trigger it again.
 	BeforeWrite func(c *Conn, payload []byte)
+	// AcceptK makes this side search its ephemeral secret (with its own
+	// arithmetic, before it sends anything that depends on it) until the shared
+	// secret K it will derive satisfies the predicate; kContent is the mpint (or,
+	// for mlkem768x25519, string) content of K.  A server searches against the
+	// client's value it has just received; a client needs PeerPubHint.
+	AcceptK func(kContent []byte) bool
+	// PeerPubHint is the public value (wire content of f / Q_S) the server is
+	// expected to send, e.g. because its randomness is pinned; used by a client
+	// together with AcceptK.  If the server sends something else the search was
+	// in vain (the exchange itself is unaffected).
+	PeerPubHint []byte
+	// FixedSecret pins this side's ephemeral secret: X25519 scalar (32 bytes),
+	// DH exponent or NIST scalar (big-endian).
+	FixedSecret []byte
+	// SearchLimit bounds the AcceptK search (default 1<<21 candidates).
+	SearchLimit int
 }
 
 // ErrAbort can be returned from OnGexGroup to stop after the group was seen.
